@@ -74,6 +74,7 @@ type FuncContract struct {
 	Unroll   map[int]int
 	Uses     []string
 	NoSafety bool
+	HeapPtrs []string // parameters / captured variables of pointer type that are unknown heap references (may alias objects stored in containers)
 	AppendInPlace bool // append is modelled with both outcomes: writing into spare capacity of the operand's array, or a fresh array
 	CutLoops bool // modular loops: the code after a loop header is verified once, from the invariant alone
 	Stop     string // region contract: paths end before this call site; ensures are checked there
@@ -324,6 +325,10 @@ func (cs *Contracts) parseFile(path string) error {
 			cur.CutLoops = true
 		case "appendinplace":
 			cur.AppendInPlace = true
+		case "heap":
+			for _, n := range strings.FieldsFunc(rest, func(r rune) bool { return r == ',' || r == ' ' }) {
+				cur.HeapPtrs = append(cur.HeapPtrs, n)
+			}
 		case "nosafety":
 			cur.NoSafety = true
 		case "noframe":
